@@ -400,6 +400,65 @@ pub fn run(cfg: &RunCfg) -> CheckReport {
         }
     });
     rep.part("rich-corpus", json!({"atoms": super::richtext::atoms().len(), "max_atoms_per_text": k, "texts": texts.len(), "note": "enumerated family, not exhaustive"}), ex);
+    if rep.has_violation() {
+        return rep;
+    }
+    // position sweep: every atom at every byte offset 0..=P inside a filler of 1-, 2- and 3-byte
+    // characters (block / chunk boundaries of any size up to P), and the long texts
+    let maxpos = cfg.tier.pick(140, 300);
+    let atoms = super::richtext::atoms();
+    let fillers: [&[u8]; 3] = [b"a", "\u{e9}".as_bytes(), "\u{4e2d}".as_bytes()];
+    let mut long: Vec<Vec<u8>> = vec![];
+    for (name, old, new) in super::richtext::long_pairs(&super::large::all(cfg.tier, cfg.seed), cfg.tier.pick(130, 300)) {
+        let _ = name;
+        long.push(old.into_bytes());
+        long.push(new.into_bytes());
+    }
+    let n_sweep = atoms.len() * fillers.len();
+    let ex = explore(cfg, n_sweep + (long.len() + 15) / 16, |shard, acc| {
+        let mut one = |text: &[u8], acc: &mut Acc| {
+            match check_bytes(text) {
+                Ok((nt, ntok, fp)) => {
+                    if acc.want_sample() {
+                        acc.sample(json!({"bytes_len": text.len(), "lossy_prefix": String::from_utf8_lossy(&text[..text.len().min(40)])}));
+                    }
+                    acc.ok(nt, ntok, fp);
+                }
+                Err(e) => acc.violation(|| (json!({"bytes": text, "lossy": String::from_utf8_lossy(text)}), e)),
+            }
+        };
+        if shard < n_sweep {
+            let atom = &atoms[shard / fillers.len()];
+            let filler = fillers[shard % fillers.len()];
+            for pos in 0..=maxpos {
+                let mut t = vec![];
+                while t.len() < pos {
+                    t.extend_from_slice(filler);
+                }
+                t.truncate(pos - pos % filler.len());
+                // pad with ASCII so that the atom starts exactly at byte offset `pos`
+                while t.len() < pos {
+                    t.push(b'x');
+                }
+                t.extend_from_slice(atom);
+                t.extend_from_slice(filler);
+                t.extend_from_slice(b"z\n");
+                one(&t, acc);
+                if acc.stop() {
+                    return;
+                }
+            }
+        } else {
+            let lo = (shard - n_sweep) * 16;
+            for t in &long[lo..(lo + 16).min(long.len())] {
+                one(t, acc);
+                if acc.stop() {
+                    return;
+                }
+            }
+        }
+    });
+    rep.part("positions-and-long-texts", json!({"atoms": atoms.len(), "fillers": ["a", "e-acute", "CJK"], "offsets": format!("0..={}", maxpos), "long_texts": long.len(), "note": "enumerated family"}), ex);
     rep
 }
 
